@@ -2,7 +2,9 @@
 NOTES = ('Contract-based deductive verification of the real code, see DESIGN.md. Exit codes: 0 held / 1 VIOLATION / '
          '2 UNDECIDED (solver unknown, unit over its budget, or out of the verified subset without a bounded stand-in) / 3 checker fault. '
          'A unit that leaves the verified subset but whose bounded native stand-in ran and held is reported as BOUNDED-ONLY (labelled in the evidence, '
-         'never counted as proved) and does not raise the exit code. Known findings: known_findings.json.')
+         'never counted as proved) and does not raise the exit code. Every check ends with a dependency layer (generic clauses of all fragment contracts, run-time library '
+         'contracts, node classes, wiring, front end: the code the property passes through; DESIGN.md section 0 item 9). ./check selftest runs stored seeded changes and '
+         'behaviour-preserving edits against the checks. Known findings: known_findings.json.')
 
 NOT_APPLICABLE = {}
 
